@@ -121,7 +121,8 @@ let explore (nlists : int) (level : int) (keys : int list) (max_states : int) =
   L.iter (fun l ->
     L.iter (fun e -> add "push_front %d %d" l e; add "push_back %d %d" l e;
              add "erase %d %d" l e;
-             L.iter (fun b -> if b <> e then add "insert %d %d %d" l b e) (rng ne)) (rng ne);
+             L.iter (fun b -> if b <> e && (level = 0 || (b + e) mod 2 = 1) then add "insert %d %d %d" l b e) (rng ne))
+      (rng ne);
     add "pop_front %d" l; add "pop_back %d" l; add "reverse %d" l; add "sort %d" l; add "clear %d" l;
     if level = 0 then begin
       add "front %d" l; add "back %d" l; add "size %d" l;
